@@ -34,7 +34,7 @@ ASSUMPTIONS = ["CPython 3.12 semantics (close() returns None; StopIteration reac
 
 # model variant = the code as it is; after the patches in proposed_fixes/C23-*.diff are applied
 # flip the corresponding character to "1" (order: first_send, throw_si_fresh, close_ret, si_at_yf)
-FX = os.environ.get("C23_FX", "0000")
+FX = os.environ.get("C23_FX", "1010")
 FX_NAMES = ["send_nonnone_just_started_terminates", "throw_stopiteration_just_started_pep479",
             "close_return_value_in_genexit_handler", "stopiteration_reaching_yield_from"]
 
@@ -178,8 +178,15 @@ def run_history(factory, hist, coro=False, selfref=False):
     out = []
     unr = []
     old = sys.unraisablehook
-    sys.unraisablehook = lambda u: unr.append(u.exc_value)
+    outer = [0]
+    def hook(u):
+        # finalisation errors of the object under test are its del result; those of other
+        # (abandoned sub-)objects are events of the trace
+        if id(u.object) == outer[0]: unr.append(u.exc_value)
+        else: LOG.append("UN:" + sexc(u.exc_value))
+    sys.unraisablehook = hook
     box = [factory()]
+    outer[0] = id(box[0])
     SELF[0] = weakref.ref(box[0]) if selfref else None
     try:
         with warnings.catch_warnings(record=True) as wl:
@@ -203,7 +210,7 @@ def run_history(factory, hist, coro=False, selfref=False):
                     elif kind == "c":
                         g.close(); r = "N"
                     else:
-                        g = None; del box[:]; gc.collect()
+                        g = None; del box[:]; gc.collect(0)
                         if unr: r = "U" + sexc(unr[0])
                         elif any("never awaited" in str(w.message) for w in wl): r = "W"
                         else: r = "N"
@@ -213,7 +220,7 @@ def run_history(factory, hist, coro=False, selfref=False):
                 g = None
                 out.append([r, LOG[n0:]])
                 if kind == "d": break
-            g = None; del box[:]; gc.collect()
+            g = None; del box[:]
     finally:
         sys.unraisablehook = old
         SELF[0] = None
@@ -247,8 +254,13 @@ def run_async_history(factory, hist):
     out = []
     unr = []
     old = sys.unraisablehook
-    sys.unraisablehook = lambda u: unr.append(u.exc_value)
+    outer = [0]
+    def hook(u):
+        if id(u.object) == outer[0]: unr.append(u.exc_value)
+        else: LOG.append("UN:" + sexc(u.exc_value))
+    sys.unraisablehook = hook
     box = [factory()]
+    outer[0] = id(box[0])
     try:
         for tok in hist:
             n0 = len(LOG)
@@ -264,14 +276,14 @@ def run_async_history(factory, hist):
                 elif kind == "c":
                     drive(g.aclose()); r = "N"
                 else:
-                    g = None; del box[:]; gc.collect()
+                    g = None; del box[:]; gc.collect(0)
                     r = ("U" + sexc(unr[0])) if unr else "N"
             except BaseException as e:
                 r = "E" + sexc(e); e = None
             g = None
             out.append([r, LOG[n0:]])
             if kind == "d": break
-        g = None; del box[:]; gc.collect()
+        g = None; del box[:]
     finally:
         sys.unraisablehook = old
     return out
@@ -423,7 +435,9 @@ def gen_table(rng, coro):
             kinds = ["F", "F", "R", "X"] if coro else ["Y", "Y", "Y", "F", "F", "R", "X"]
             t = rng.choice(kinds)
             if t == "F":
-                ok = [i for i, s in enumerate(subs) if s[0] in (0, 3) or s[1] > k]
+                # nested generators only where GeneratorExit cannot arrive: a finaliser that spawns
+                # a new suspended generator recurses without bound (C stack overflow in compiled code)
+                ok = [i for i, s in enumerate(subs) if s[0] in (0, 3) or (s[1] > k and c not in (2, -1))]
                 if not ok or k == n - 1 and rng.random() < 0.5:
                     t = "R" if coro else "Y"
             if t == "Y":
@@ -472,6 +486,7 @@ class BodyGen(object):
     def __init__(self, rng, kind, nfun):
         self.rng, self.kind, self.nfun = rng, kind, nfun      # kind g | c | a
         self.tag = 0
+        self.kinds = []
 
     def L(self, what):
         self.tag += 1
@@ -493,7 +508,7 @@ class BodyGen(object):
         r = self.rng
         self.tag += 1
         cands = ["iter([1, 2])", "iter([])", "S.SCR[%d](({(0, 0): (0, 4, 0), (0, 2): (3, -2, 0), (0, 20): (0, 0, 0)}, [], {}), 0)" % r.choice([0, 1, 2, 4, 7])]
-        cands += ["f%d()" % j for j in range(idx)] * 3
+        cands += ["f%d()" % j for j in self.same_kind] * 3
         src = r.choice(cands)
         if self.kind == "g":
             e = "yield from " + src
@@ -555,7 +570,10 @@ class BodyGen(object):
             out = [ind + "pass"]
         return out
 
-    def function(self, idx):
+    def function(self, idx, kind):
+        self.kind = kind
+        self.same_kind = [j for j, k in enumerate(self.kinds) if k == kind]
+        self.kinds.append(kind)
         head = {"g": "def f%d():", "c": "async def f%d():", "a": "async def f%d():"}[self.kind] % idx
         body = ["    x = None", "    " + self.L("start")]
         body += self.block("    ", 0, idx, [self.rng.randint(3, 9)])
@@ -568,12 +586,12 @@ class BodyGen(object):
         return [head] + body + [""]
 
 
-def gen_structured_module(rng, kind, nfun):
-    bg = BodyGen(rng, kind, nfun)
+def gen_structured_module(rng, nfun):
+    bg = BodyGen(rng, "g", nfun)
     L = ["# cython: language_level=3", "import c23_support as S", ""]
     for i in range(nfun):
-        L += bg.function(i)
-    return "\n".join(L) + "\n"
+        L += bg.function(i, "gggcga"[i % 6])
+    return "\n".join(L) + "\n", list(bg.kinds)
 
 
 HAND = r'''# cython: language_level=3
@@ -709,21 +727,38 @@ def flip(fx, i):
     return fx[:i] + "1" + fx[i + 1:]
 
 
-def classify_tbl(model, case, hist, oracle_view):
-    """class of a table failure = the repaired model variant that explains CPython's trace"""
-    cands = []
-    for i in range(4):
-        if FX[i] == "1":
-            continue
-        m = model_trace(model.batch([enc_case("cy", case, hist, flip(FX, i))])[0])
-        if m == oracle_view:
-            cands.append(FX_NAMES[i])
-    if len(cands) >= 1:
-        return cands[0]
-    m = model_trace(model.batch([enc_case("cy", case, hist, "1111")])[0])
-    if m == oracle_view:
-        return "several_known_classes"
-    return "trace_mismatch"
+def prefix_len(m, oracle):
+    n = 0
+    while m is not None and n < min(len(m), len(oracle)) and tuple(m[n]) == tuple(oracle[n]):
+        n += 1
+    return n
+
+
+def classify_tbl_batch(model, items):
+    """class of each table failure = the (first flag of the smallest set of) repaired model variant(s)
+    that removes the FIRST divergence from CPython's trace.  items: [(case, hist, oracle_view)] -> [class]"""
+    open_flags = [i for i in range(4) if FX[i] != "1"]
+    sets = [(i,) for i in open_flags] + list(itertools.combinations(open_flags, 2)) + [tuple(open_flags)]
+    variants = [FX]
+    for st in sets:
+        v = FX
+        for i in st:
+            v = flip(v, i)
+        variants.append(v)
+    nv = len(variants)
+    lines = [enc_case("cy", case, hist, v) for case, hist, _ in items for v in variants]
+    res = model.batch(lines)
+    out = []
+    for n, (case, hist, oracle_view) in enumerate(items):
+        ms = [model_trace(x) for x in res[n * nv:(n + 1) * nv]]
+        base = prefix_len(ms[0], oracle_view)
+        klass = "trace_mismatch"
+        for st, m in zip(sets, ms[1:]):
+            if prefix_len(m, oracle_view) > base:
+                klass = FX_NAMES[st[0]]
+                break
+        out.append(klass)
+    return out
 
 
 def classify_struct(hist, cy, py):
@@ -741,18 +776,18 @@ def classify_struct(hist, cy, py):
     if hist[i] in ("c", "d") and i < len(cy) and cy[i][0] in ("E4:1", "U4:1") and py[i][0] == "N":
         return FX_NAMES[2]
     if i < len(cy) and i < len(py) and (hist[i].startswith("t3") or hist[i] in ("c", "t2")):
-        return FX_NAMES[3] + "_structured"
+        return FX_NAMES[3]
     return "trace_mismatch"
 
 
 def build_all(ctx, nmods, nfun):
-    specs = [dict(name="c23_tbl", source=TBL, workdir=ctx.workdir),
-             dict(name="c23_hand", source=HAND, workdir=ctx.workdir)]
+    specs = [dict(name="c23_tbl", source=TBL + HAND.split("import c23_support as S", 1)[1], workdir=ctx.workdir,
+                  cflags=["-O0"])]
     kinds = []
     for i in range(nmods):
-        kind = "gggcga"[i % 6]
-        kinds.append(kind)
-        specs.append(dict(name="c23_s%d" % i, source=gen_structured_module(ctx.rng, kind, nfun), workdir=ctx.workdir))
+        src, ks = gen_structured_module(ctx.rng, nfun)
+        kinds.append(ks)
+        specs.append(dict(name="c23_s%d" % i, source=src, workdir=ctx.workdir, cflags=["-O0"]))
     with open(os.path.join(ctx.workdir, "c23_support.py"), "w") as f:
         f.write(SUPPORT)
     built = cybuild.build_many(specs, jobs=6)
@@ -768,7 +803,7 @@ def run(ctx):
     quick = ctx.tier == "quick"
     maxlen = 6 if quick else 8
     ntab, nhist = (150, 40) if quick else (700, 90)
-    nmods, nfun, nsh = (6, 8, 30) if quick else (18, 10, 80)
+    nmods, nfun, nsh = (2, 18, 30) if quick else (8, 24, 80)
     ok, specs, kinds = build_all(ctx, nmods, nfun)
     if not ok:
         return
@@ -788,19 +823,21 @@ def run(ctx):
         for _ in range(nsh * 3):
             hs.add(tuple(gen_history(rng, maxlen)))
         runs += [[fn, kind, list(h)] for h in sorted(hs)]
-    structured.append({"module": "c23_hand", "runs": runs})
+    structured.append({"module": "c23_tbl", "runs": runs})
     for i in range(nmods):
         runs = []
         for j in range(nfun):
             hs = set()
             for _ in range(nsh):
                 hs.add(tuple(gen_history(rng, maxlen)))
-            runs += [["f%d" % j, kinds[i], list(h)] for h in sorted(hs)]
+            runs += [["f%d" % j, kinds[i][j], list(h)] for h in sorted(hs)]
         structured.append({"module": "c23_s%d" % i, "runs": runs})
     spec = {"modules": [s["name"] for s in specs], "tables": tables, "structured": structured}
+    with open(os.path.join(ctx.workdir, "spec.json"), "w") as f:
+        json.dump(spec, f)
     res = cybuild.run_script(DRIVER, ctx.workdir, stdin_obj=spec, timeout=3000)
     if res["json"] is None:
-        ctx.corr_break("driver", "driver", (res["err"] or res["out"])[-1500:], "driver runs")
+        ctx.corr_break("driver", "driver", "rc=%s %s" % (res["rc"], (res["err"] or res["out"])[-1500:]), "driver runs")
         return
     out = res["json"]
     model = ctx.model("gen")
@@ -815,6 +852,7 @@ def run(ctx):
               for tok, t, c in [("n", "n", 0), ("s", "s7", 0), ("t", "t10", 0), ("c", "c", 0)]}
     li = 0
     nfuel = 0
+    failing = []
     for case, cres in zip(tables, out["tbl"]):
         cinfo = {k: case[k] for k in ("rows", "subs", "probes", "coro", "k0")}
         for h, (cy, py) in zip(case["hists"], cres):
@@ -846,7 +884,9 @@ def run(ctx):
                             if got != probes[tok]:
                                 ctx.corr_break("gen:running_probe", inp, ent, probes[tok])
             if cy != py:
-                ctx.fail(classify_tbl(model, case, h, pyv), inp, cy, py)
+                failing.append((case, h, pyv, inp, cy, py))
+    for klass, (case, h, pyv, inp, cy, py) in zip(classify_tbl_batch(model, [f[:3] for f in failing]), failing):
+        ctx.fail(klass, inp, cy, py)
     if nfuel:
         ctx.note("%d table cases skipped: executable instance out of fuel" % nfuel)
     # ---- structured: compiled vs CPython
@@ -855,14 +895,14 @@ def run(ctx):
             inp = {"module": case["module"], "func": fn, "kind": kind, "history": h}
             resumed = any(log for _, log in py)
             ctx.case("struct/%s/%s" % ({"g": "gen", "c": "coro", "a": "asyncgen"}[kind],
-                                       "hand" if case["module"] == "c23_hand" else "random"),
+                                       "hand" if case["module"] == "c23_tbl" else "random"),
                      inp, sig=(case["module"], fn, tuple(h)), nontrivial=resumed)
             if any(r[0].startswith("HARNESS") for r in cy + py):
                 ctx.corr_break("gen:harness", inp, cy, py)
                 continue
             if cy != py:
                 klass = classify_struct(h, cy, py)
-                if case["module"] != "c23_hand":
+                if case["module"] != "c23_tbl":
                     inp["source"] = source_of(ctx, case["module"], fn)
                 ctx.fail(klass, inp, cy, py)
 
@@ -884,8 +924,7 @@ def replay(ctx, obj):
     inp = obj["input"]
     with open(os.path.join(ctx.workdir, "c23_support.py"), "w") as f:
         f.write(SUPPORT)
-    specs = [dict(name="c23_tbl", source=TBL, workdir=ctx.workdir),
-             dict(name="c23_hand", source=HAND, workdir=ctx.workdir)]
+    specs = [dict(name="c23_tbl", source=TBL + HAND.split("import c23_support as S", 1)[1], workdir=ctx.workdir)]
     if "source" in inp:
         specs.append(dict(name="c23_r", source="# cython: language_level=3\nimport c23_support as S\n" + inp["source"],
                           workdir=ctx.workdir))
